@@ -337,11 +337,13 @@ pub fn angle_sol_surf(
     let cb = cosd(surf_tilt);
     let sg = sind(surf_azimuth);
     let cg = cosd(surf_azimuth);
+    // El redondeo puede dejar el coseno ligeramente fuera de [-1, 1] con el sol en la normal de la superficie
     acosd(
-        sd * sw * cb - sd * cw * sb * cg
+        (sd * sw * cb - sd * cw * sb * cg
             + cd * cw * cb * ch
             + cd * sw * sb * cg * ch
-            + cd * sb * sg * sh,
+            + cd * sb * sg * sh)
+            .clamp(-1.0, 1.0),
     )
 }
 
